@@ -191,7 +191,8 @@ def c09_expand(tname: str, defs: int, **leaves) -> str:
 # C11
 
 def snapshot(circ):
-    """Deep structural snapshot of everything reachable from the circuit, including container identities."""
+    """Deep structural snapshot of everything reachable from the circuit: every attribute of every core object,
+    order and content of every container, and which objects are shared (as traversal-order references)."""
     seen = {}
 
     def snap(o, depth=0):
@@ -210,14 +211,14 @@ def snapshot(circ):
             return ("ref", seen[id(o)])
         seen[id(o)] = len(seen)
         if isinstance(o, dict):
-            return ("dict", id(o), [(k, snap(v, depth + 1)) for k, v in o.items()])
+            return ("dict", [(k, snap(v, depth + 1)) for k, v in o.items()])
         if isinstance(o, (list, tuple)):
-            return (type(o).__name__, id(o), [snap(v, depth + 1) for v in o])
+            return (type(o).__name__, [snap(v, depth + 1) for v in o])
         if isinstance(o, slice):
             return ("slice", snap(o.start, depth + 1), snap(o.stop, depth + 1), snap(o.step, depth + 1))
         if isinstance(o, (Circuit, BlockStatement, LoopStatement, GateStatement, Macro, Register, NamedQubit, Constant, Parameter, AbstractGate, UsePulsesStatement)):
-            return (type(o).__name__, id(o), [(k, snap(v, depth + 1)) for k, v in sorted(vars(o).items()) if not callable(v)])
-        return ("obj", type(o).__name__, id(o))
+            return (type(o).__name__, [(k, snap(v, depth + 1)) for k, v in sorted(vars(o).items()) if not callable(v)])
+        return ("obj", type(o).__name__)
 
     return snap(circ)
 
